@@ -611,6 +611,19 @@ class RUNAWAY(Exception):
     pass
 
 
+class CountingIO(io.BytesIO):
+    """the file handed to the library; a call sequence that keeps reading for ever is cut off"""
+    def __init__(self, data, cap):
+        super().__init__(data)
+        self.reads, self.cap = 0, cap
+
+    def read(self, *a):
+        self.reads += 1
+        if self.reads > self.cap:
+            raise RUNAWAY()
+        return super().read(*a)
+
+
 def observe_attr_section(img, name, mode):
     from elftools.elf.elffile import ELFFile
     cap = 4 * len(img) + 64
@@ -620,7 +633,9 @@ def observe_attr_section(img, name, mode):
             if n > cap:
                 raise RUNAWAY()
             yield x
-    elf = ELFFile(io.BytesIO(bytes(img)))
+    # reads are counted too: a walk that the library itself runs to the end (a memo, a list()) on a
+    # malformed section that never ends must come back as an observation, not hang the check
+    elf = ELFFile(CountingIO(bytes(img), 200 * len(img) + 5000))
     sec = elf.get_section_by_name(name)
     out = []
     if mode == 'eager':
@@ -636,19 +651,6 @@ def observe_attr_section(img, name, mode):
                 subs.append([canon_attr(ss.header), [canon_attr(a) for a in cap_iter(ss.iter_attributes())]])
             out.append([s['length'], s['vendor_name'].encode('utf-8'), subs])
     return ['ok', out]
-
-
-class CountingIO(io.BytesIO):
-    """the file handed to the library; a call sequence that keeps reading for ever is cut off"""
-    def __init__(self, data, cap):
-        super().__init__(data)
-        self.reads, self.cap = 0, cap
-
-    def read(self, *a):
-        self.reads += 1
-        if self.reads > self.cap:
-            raise RUNAWAY()
-        return super().read(*a)
 
 
 ITER_M = ['iter_subsections', 'iter_subsubsections', 'iter_attributes']
